@@ -16,8 +16,19 @@ CACHE = os.path.join(VERIF, ".cache")
 COQ = os.path.join(VERIF, "coq")
 GEN = os.path.join(COQ, "gen")
 CASES = os.path.join(COQ, "cases")
+# legacy shared location (do not use: scratch copies of crates overwrite each other's binaries there)
 TARGET = os.path.join(CACHE, "target")
 BIN = os.path.join(TARGET, "debug")
+
+
+def target_dir(pkg):
+    """Each harness crate has its own cargo target dir (a shared one lets scratch copies of a
+    crate overwrite another crate's binaries)."""
+    return os.path.join(CACHE, "tgt", pkg)
+
+
+def bin_path(pkg, name):
+    return os.path.join(target_dir(pkg), "debug", name)
 EVID = os.path.join(VERIF, "evidence")
 REPLAY = os.path.join(EVID, "replay")
 HOOK_FLAGS = "--cfg sqlparser_verif"
@@ -74,7 +85,7 @@ def build_harness(pkg="vh"):
             shutil.copy(os.path.join(VERIF, "harness", "Cargo.lock"), os.path.join(cdir, "Cargo.lock"))
         p = subprocess.run(
             ["timeout", "1200", "cargo", "build", "--offline", "--bins"],
-            cwd=cdir, env=env_offline(),
+            cwd=cdir, env=env_offline({"CARGO_TARGET_DIR": target_dir(pkg)}),
             stdout=subprocess.PIPE, stderr=subprocess.STDOUT, text=True)
         if p.returncode != 0:
             raise BuildFailed(p.stdout[-6000:])
@@ -89,7 +100,7 @@ def run_bin(name, args, lines=None, timeout=900, raw=False, env=None, pkg="vh"):
     inp = None
     if lines is not None:
         inp = "".join(json.dumps(x, ensure_ascii=False) + "\n" for x in lines)
-    p = subprocess.run([os.path.join(BIN, name)] + list(args), input=inp, text=True,
+    p = subprocess.run([bin_path(pkg, name)] + list(args), input=inp, text=True,
                        stdout=subprocess.PIPE, stderr=subprocess.PIPE, timeout=timeout,
                        env=env_offline(env))
     if p.returncode != 0:
@@ -109,7 +120,7 @@ def run_bin_parallel(name, args, cases, shards=NCPU, timeout=900, pkg="vh"):
     procs = []
     for ch in chunks:
         inp = "".join(json.dumps(x, ensure_ascii=False) + "\n" for x in ch)
-        p = subprocess.Popen([os.path.join(BIN, name)] + list(args), stdin=subprocess.PIPE,
+        p = subprocess.Popen([bin_path(pkg, name)] + list(args), stdin=subprocess.PIPE,
                              stdout=subprocess.PIPE, stderr=subprocess.PIPE, text=True,
                              env=env_offline())
         procs.append((p, inp))
@@ -198,7 +209,7 @@ def coq_makefile():
                        check=True, stdout=subprocess.PIPE, stderr=subprocess.PIPE)
 
 
-def coq_make(targets, timeout=1500):
+def coq_make(targets, timeout=900):
     """make the given .vo targets (paths relative to coq/). Returns (ok, output)."""
     with Lock("coq"):
         coq_makefile()
